@@ -11,7 +11,8 @@
        sp+0 r15  sp+8 r14  sp+16 r13  sp+24 r12  sp+32 rbx  sp+40 rbp  sp+48 rip
    with ctx_stack_pointer = sp and the context's own rsp = sp+56. *)
 From Coq Require Import List ZArith Lia Bool.
-From LF Require Import Conc CtxIsa gen.CtxGen.
+From LF Require Import Conc CtxIsa.
+From LF Require Import gen.CtxGen.
 Import ListNotations.
 Open Scope Z_scope.
 
@@ -112,9 +113,13 @@ Definition fresh_frame (sp fn : Z) : frame :=
   {| f_sp := sp; f_r15 := 0; f_r14 := 0; f_r13 := 0; f_r12 := 0; f_rbx := 0; f_rbp := 0;
      f_rip := fn |}.
 
-(* [103 <= size]: room for the alignment slack (8 + 15 bytes) and the ten words *)
+(* room for the top adjustment, the alignment slack and the pushed words
+   (8 + 15 + 80 = 103 bytes for the pinned source) *)
+Definition init_min_size : Z :=
+  8 * init_top_back_words + init_align_mask + 8 * Z.of_nat (length init_pushes).
+
 Lemma init_frame base size param fn mem :
-  103 <= size ->
+  init_min_size <= size ->
   exists sp mem',
     init_context init_top_back_words init_align_mask init_pushes base size param fn mem
       = Some (sp, mem') /\
@@ -124,12 +129,15 @@ Lemma init_frame base size param fn mem :
     (forall a, ~ (sp <= a < sp + 72) -> mem' a = mem a).
 Proof.
   intros Hsz. unfold init_context, init_top, align_down.
+  let v := eval vm_compute in init_min_size in change init_min_size with v in Hsz.
   let v := eval vm_compute in (init_align_mask + 1) in change (init_align_mask + 1) with v.
   let v := eval vm_compute in (8 * init_top_back_words) in change (8 * init_top_back_words) with v.
-  remember (base + size - 8 - (base + size - 8) mod 16) as T eqn:ET.
-  assert (HT : T mod 16 = 0) by (subst T; Z.div_mod_to_equations; lia).
-  assert (HT1 : base + size - 8 - 15 <= T <= base + size - 8)
-    by (subst T; Z.div_mod_to_equations; lia).
+  match goal with
+  | |- context [?x - ?x mod ?k] =>
+    remember (x - x mod k) as T eqn:ET;
+    assert (HT : T mod 16 = 0) by (subst T; Z.div_mod_to_equations; lia);
+    assert (HT1 : x - (k - 1) <= T <= x) by (subst T; Z.div_mod_to_equations; lia)
+  end.
   clear ET.
   cbn [init_pushes do_pushes].
   repeat (rewrite aligned8_true by solve_align).
@@ -142,7 +150,7 @@ Qed.
 Lemma fresh la m base size param fn mem0 mem1 sp :
   let slotA := rg m from_reg in
   let rspA := rg m RSP in
-  103 <= size ->
+  init_min_size <= size ->
   init_context init_top_back_words init_align_mask init_pushes base size param fn mem0
     = Some (sp, mem1) ->
   (forall a, sp <= a < sp + 72 -> mm m a = mem1 a) ->
